@@ -126,7 +126,15 @@ func runRuntime(p *progen.Program, occ int, perm string) (out string, points []p
 		return "", points
 	}
 	var inv []string
+	var forkOrder []string
 	res = psx.Run(p, sched, psx.Options{PermSite: func(string) bool { return true }, Inspect: func(r *psx.Result) {
+		if r.H != nil && r.H.Ps != nil {
+			// the fork identifiers of every call, in the order the runtime holds them
+			for call, ids := range r.H.VerifForkDirs() {
+				forkOrder = append(forkOrder, call+": "+strings.Join(ids, " "))
+			}
+			sort.Strings(forkOrder)
+		}
 		filepath.Walk(r.PsPath, func(pth string, info os.FileInfo, err error) error {
 			if err == nil && info.Name() == "_invocation" {
 				if data, e := os.ReadFile(pth); e == nil {
@@ -146,6 +154,7 @@ func runRuntime(p *progen.Program, occ int, perm string) (out string, points []p
 	sort.Strings(inv)
 	// uniquified chunk directory names carry the pid/time; fork level files only
 	b.WriteString("INVOCATIONS:\n" + strings.Join(inv, "\n") + "\n")
+	b.WriteString("FORKS:\n" + strings.Join(forkOrder, "\n") + "\n")
 	b.WriteString("OUTS:\n" + res.TopOutsText + "\n")
 	norm := strings.ReplaceAll(b.String(), res.Dir, "<scratch>")
 	norm = uniqRe.ReplaceAllString(norm, "-uX")
@@ -314,6 +323,15 @@ func main() {
 		{Kind: "smap", Src: "gen", Size: 3, Cons: "id", Narrow: true, Map: "top", Alias: true},
 	} {
 		addP("df:"+d.String(), progen.Dataflow(d))
+	}
+	// nests of mapped calls: typed maps with several keys at both levels,
+	// literal (static fork expansion) and produced at run time
+	for _, d := range []progen.KeyParams{
+		{Outer: "map", OuterSel: 0, Inner: "map", InnerSel: 3},
+		{Ragged: "map", OuterSel: 6},
+		{Ragged: "map", OuterSel: 6, OuterDyn: true},
+	} {
+		addP("nest:"+d.String(), progen.KeyFlow(d))
 	}
 	addP("disnest", progen.DisNest(progen.DisNestParams{Levels: []string{"p", "q", "c"}, Sib: [2]string{"r", "s"}, Vals: 0b010000}))
 	addP("files", progen.FileFlow(progen.FileParams{Out: "ms", Proj: "f", Prod: "filew", ConsMap: true, Late: true, Retain: "pipe", TopOut: true, Mode: "rolling", Size: 2}))
